@@ -39,12 +39,24 @@ Theorem approx_symmetric_without_abs : forall dflt l r rel,
 Proof. exact ApproxProofs.approx_symmetric_without_abs. Qed.
 Print Assumptions approx_symmetric_without_abs.
 
-(* outside the reals the symmetry fails: an infinite left operand is "equal" to every finite right operand *)
-Theorem approx_symmetric_infinite_refuted :
-  exists dflt l r,
-    approx_numbers QO dflt l r None None = Ok true /\ approx_numbers QO dflt r l None None = Ok false.
-Proof. exact ApproxProofs.approx_symmetric_infinite_refuted. Qed.
-Print Assumptions approx_symmetric_infinite_refuted.
+(* an infinite number is approximately equal only to itself, whatever the tolerances *)
+Theorem approx_infinite_only_equal_to_itself : forall dflt (l r : xq) rel abs,
+  xisinf l || xisinf r = true -> approx_numbers QO dflt l r rel abs = Ok (xeqb l r).
+Proof. exact ApproxProofs.approx_infinite_only_equal_to_itself. Qed.
+Print Assumptions approx_infinite_only_equal_to_itself.
+
+(* symmetry of the verdict over all operands: finite, infinite and NaN *)
+Theorem approx_symmetric_extended : forall dflt (l r : xq) rel,
+  0 <= rel_eff dflt rel ->
+  (approx_numbers QO (XQ dflt) l r (oxq rel) None = Ok true <-> approx_numbers QO (XQ dflt) r l (oxq rel) None = Ok true).
+Proof. exact ApproxProofs.approx_symmetric_extended. Qed.
+Print Assumptions approx_symmetric_extended.
+
+Theorem assert_equal_infinite_rejects : forall dflt (l r : aq QO) rel abs dimension,
+  xisinf (aq_re l) || xisinf (aq_re r) = true -> xeqb (aq_re l) (aq_re r) = false ->
+  assert_equal QO dflt (OQ l) (OQ r) rel abs dimension <> None.
+Proof. exact ApproxProofs.assert_equal_infinite_rejects. Qed.
+Print Assumptions assert_equal_infinite_rejects.
 
 Theorem dim_gate_pass_iff : forall (l r : aq QO),
   is_number (aq_val l) = true ->
